@@ -596,6 +596,8 @@ def model_service(lines):
             cur = []; blocks.append(cur)
         elif t[0] == "ACTION":
             blocks.append(t[1:])
+        elif t[0] == "INPUT":
+            blocks.append([unxh(x) for x in t[1:]])
         elif t[0] == "E" and cur is not None:
             cur.append(dict(topic=unxh(t[1]).decode(), ctx=int(t[2], 16), hid=int(t[3], 16), fid=int(t[4], 16), ttl=t[5],
                             content=unxh(t[6]) if t[6] != "-" else None,
@@ -781,6 +783,31 @@ GEN_EXPRS = [
 ]
 
 
+def duplex_model_check(cl, fr, spawn_id, ctx, name, short=False):
+    """the instances of one duplex generator (its .start/.stop frames, by source_id) and what each was fed according to
+    the extracted model (Service.instance_input over the observed stream) vs the .recv frames it produced -> list of
+    violation strings"""
+    sid = H.id_to_s(spawn_id)
+    mine = [f for f in fr if f["meta"] and f["meta"].get("source_id") == sid]
+    starts = [f["id"] for f in mine if f["topic"] == name + ".start"]
+    stops = [f["id"] for f in mine if f["topic"] == name + ".stop"]
+    stream = " ".join(f"S {H.hex32(f['id'])} {H.hex32(f['ctx'])} {xh(f['topic'])} "
+                      f"{xh(cl.cas(f['hash']) or b'') if f['hash'] and f['topic'].endswith('.send') else '-'}" for f in fr)
+    out = []
+    for k, a in enumerate(starts):
+        b = next((x for x in stops if x > a), 2 ** 128 - 1)
+        nxt = starts[k + 1] if k + 1 < len(starts) else 2 ** 128
+        fed = model_service([f"DUPLEX spawn={H.hex32(spawn_id)} ctx={H.hex32(ctx)} name={xh(name)} start={H.hex32(a)} stop={H.hex32(b)} {stream}"])[0]
+        got = [cl.cas(f["hash"]) or b"" for f in mine if f["topic"] == name + ".recv" and a < f["id"] < nxt]
+        if short:
+            ok = all(x.startswith(b"hi: ") for x in got) and b"".join(x[4:] for x in got) == b"".join(fed)
+        else:
+            ok = got == [b"hi: " + x for x in fed]
+        if not ok:
+            out.append(f"duplex generator `{name}`, instance #{k + 1} (started by {hex(a)[-6:]}): the model feeds it {fed}, it produced {got}")
+    return out
+
+
 def run_generator_scenario(seed, max_wait_s=12.0):
     r = random.Random(seed)
     cl = Client("api,generators")
@@ -873,6 +900,8 @@ def run_generator_scenario(seed, max_wait_s=12.0):
                     continue
                 recvs = [cl.cas(f["hash"]) for f in fr if f["topic"] == "twin.recv" and f["meta"] and f["meta"].get("source_id") == H.id_to_s(sid)]
                 rep["frames"] += len(recvs)
+                for w in duplex_model_check(cl, fr, sid, c, "twin"):
+                    rep["violations"].append(dict(what=w))
                 if recvs != [want]:
                     rep["violations"].append(dict(
                         what=f"duplex generator `twin` of context {'zero' if c == 0 else 'non-zero'} was fed {recvs} - expected exactly "
@@ -888,6 +917,10 @@ def run_generator_scenario(seed, max_wait_s=12.0):
                     rep["violations"].append(dict(what=f"a spawn of `{g['name']}` that cannot be honoured must yield exactly one "
                                                        f"{g['name']}.spawn.error naming it; got {[o['topic'] for o in obs]}"))
                 continue
+            if g["kind"] in ("duplex", "duplexonce") and g["id"]:
+                for w in duplex_model_check(cl, fr, g["id"], g["ctx"], g["name"], short=bool(g.get("short"))):
+                    rep["violations"].append(dict(what=w))
+                rep["duplex_instances"] = rep.get("duplex_instances", 0) + sum(1 for o in obs if o["topic"] == g["name"] + ".start")
             if g["kind"] == "duplexonce":
                 nm = g["name"]
                 want = []
